@@ -17,8 +17,15 @@ theorem normalizeBase_idem {cwd : String} (hc : CwdOk cwd) (u : URL) :
   simp only []
   split
   · next h =>
-    simp only [cleanPath_idem, isAbs_cleanPath] at h ⊢
-    simp [h]
+    by_cases hf : u.scheme = fileScheme
+    · simp only [hf, if_true, cleanPath_idem, isAbs_cleanPath] at h ⊢
+      have habs : isAbs u.path = true := by
+        rcases h.2 with h2 | h2
+        · exact h2
+        · exact absurd rfl h2
+      simp [habs, fileScheme]
+    · simp only [hf, if_false, cleanPath_idem, isAbs_cleanPath] at h ⊢
+      simp [h, hf]
   · next h =>
     simp only [cleanPath_absPath hc, absPath_abs hc, fileScheme]
     simp
@@ -38,11 +45,17 @@ theorem normalizeBase_canonical {cwd : String} (hc : CwdOk cwd) (u : URL) :
   simp only []
   split
   · next h =>
-    refine ⟨h.1, rfl, cleanPath_fixed _, ?_⟩
-    intro hf
-    rcases h.2 with h2 | h2
-    · exact h2
-    · exact absurd hf h2
+    by_cases hf : u.scheme = fileScheme
+    · simp only [hf, if_true] at h ⊢
+      refine ⟨by simp [fileScheme], trivial, cleanPath_fixed _, ?_⟩
+      intro _
+      rcases h.2 with h2 | h2
+      · exact h2
+      · exact absurd rfl h2
+    · simp only [hf, if_false] at h ⊢
+      refine ⟨h.1, trivial, cleanPath_fixed _, ?_⟩
+      intro hf'
+      exact absurd hf' hf
   · next h =>
     refine ⟨by simp [fileScheme], rfl, Or.inr (absPath_clean hc _), fun _ => absPath_abs hc _⟩
 
@@ -137,5 +150,16 @@ example : CwdOk "/home/u" ∧ isAbs "spec/../root.json" = false ∧
     normalizeBase "/home/u" ⟨"", "", "spec/../root.json", "", ""⟩ = ⟨"file", "", "/home/u/root.json", "", ""⟩ ∧
     normalizeBase "/home/u" ⟨"", "", join "/home/u" "spec/../root.json", "", ""⟩ = ⟨"file", "", "/home/u/root.json", "", ""⟩ := by
   refine ⟨⟨by decide, by decide⟩, by decide, by decide, by decide⟩
+
+/-- (6) For a local file (no scheme, or the `file` scheme) a query on the location is irrelevant. -/
+theorem query_irrelevant_for_files (cwd : String) (u : URL) (q : String)
+    (h : u.scheme = "" ∨ u.scheme = "file") :
+    normalizeBase cwd { u with query := q } = normalizeBase cwd u := by
+  unfold normalizeBase
+  rcases h with h | h <;> simp [h, fileScheme]
+
+example : normalizeBase "/w" ⟨"file", "", "/r/root.json", "q=1", ""⟩ = normalizeBase "/w" ⟨"file", "", "/r/root.json", "", ""⟩ ∧
+    normalizeBase "/w" ⟨"", "", "root.json", "q=1", ""⟩ = ⟨"file", "", "/w/root.json", "", ""⟩ := by
+  refine ⟨by decide, by decide⟩
 
 end SpecModel.Props.C11
